@@ -1,4 +1,7 @@
-"""Recovery/open path of the db_impl.c monitor family (harness/dbimpl/recover*.c, open.c)."""
+"""Recovery/open path of the db_impl.c monitor family (harness/dbimpl/recover*.c, open.c).
+
+The factories accept strict_logopen for compatibility; "a log that could not be opened is never
+treated as recovered / removed" (finding F3, fixed in /repo) is always asserted."""
 from vp import Obl
 
 KIT = ["vp_nondet.c", "vp_mem.c"]
@@ -15,15 +18,12 @@ def _unwind(names, recs, tables, names2=2):
     return max(11, setcap + 1, names + 2, names2 + 2, recs + 3)
 
 
-def recover_log_obls(prefix, quick=(1, 2), thorough=(3,), strict_logopen=False, known=None):
+def recover_log_obls(prefix, quick=(1, 2), thorough=(3,), strict_logopen=True, known=None):
     out = []
     for tier, recs in (("quick", quick), ("thorough", thorough)):
         for n in recs:
             defs = {"VP_RECS": n, "VP_NAMES": 1}
             name = "%s.recover-log-recs%d" % (prefix, n)
-            if strict_logopen:
-                defs["VP_STRICT_LOGOPEN"] = 1
-                name += "-strict-logopen"
             out.append(Obl(name, "dbimpl/recover_log.c",
                            include_real=["db_impl.c"], kit=KIT, defs=defs,
                            unwind=_unwind(1, n, 1), unwindset={"ldb_recover_log_file.0": n + 2},
@@ -40,7 +40,7 @@ REC_QUICK = ((1, 1, 1), (2, 1, 1), (3, 2, 0))
 REC_THOROUGH = ((3, 1, 1), (4, 2, 0), (5, 2, 0), (2, 1, 2))
 
 
-def recover_obls(prefix, quick=REC_QUICK, thorough=REC_THOROUGH, strict_logopen=False, known=None, real_sort=False):
+def recover_obls(prefix, quick=REC_QUICK, thorough=REC_THOROUGH, strict_logopen=True, known=None, real_sort=False):
     """real_sort=True links the real util/array.c quicksort instead of the compare-exchange model (slow)."""
     out = []
     for tier, tuples in (("quick", quick), ("thorough", thorough)):
@@ -51,9 +51,6 @@ def recover_obls(prefix, quick=REC_QUICK, thorough=REC_THOROUGH, strict_logopen=
             if real_sort:
                 defs["VP_REAL_SORT"] = 1
                 name += "-realsort"
-            if strict_logopen:
-                defs["VP_STRICT_LOGOPEN"] = 1
-                name += "-strict-logopen"
             uw = {"ldb_recover.0": names + 1, "ldb_recover.1": names + 1, "ldb_recover_log_file.0": recs + 2}
             if real_sort:
                 uw.update({"ldb_qsort": max(names, 1), "ldb_partition.0": names + 1, "ldb_partition.1": names + 1,
@@ -89,17 +86,15 @@ OPEN_QUICK = ((1, 1, 1, 2), (2, 1, 0, 2))
 OPEN_THOROUGH = ((2, 1, 1, 2), (3, 2, 0, 3))
 
 
-def open_obls(prefix, quick=OPEN_QUICK, thorough=OPEN_THOROUGH, strict_logopen=False, known=None):
+def open_obls(prefix, quick=OPEN_QUICK, thorough=OPEN_THOROUGH, strict_logopen=True, known=None):
     out = []
     for tier, tuples in (("quick", quick), ("thorough", thorough)):
         for (names, tables, recs, names2) in tuples:
             defs = {"VP_NAMES": names, "VP_TABLES": tables, "VP_RECS": recs, "VP_NAMES2": names2}
-            if strict_logopen:
-                defs["VP_STRICT_LOGOPEN"] = 1
             uw = {"ldb_recover.0": names + 1, "ldb_recover.1": names + 1, "ldb_recover_log_file.0": recs + 2,
                   "ldb_remove_obsolete_files.0": names2 + 1, "ldb_remove_obsolete_files.1": names2 + 1,
                   "ldb_destroy_internal.0": 2}
-            out.append(Obl("%s.open-names%d-tables%d-recs%d-gc%d%s" % (prefix, names, tables, recs, names2, "-strict-logopen" if strict_logopen else ""), "dbimpl/open.c",
+            out.append(Obl("%s.open-names%d-tables%d-recs%d-gc%d" % (prefix, names, tables, recs, names2), "dbimpl/open.c",
                            include_real=["db_impl.c"], kit=KIT, defs=defs, known=known,
                            unwind=_unwind(names, recs, tables, names2), unwindset=uw,
                            tier=tier, timeout=900, flags=FLAGS, functions=OPEN_FUNCS,
